@@ -31,6 +31,42 @@ IDS = [b"", b"alice", b"bob", b"\x00", b"a" * 70, b"\xc3\xa9\xff", b"ab", b"c", 
 TOY_INT = [(23, 11, 2), (23, 11, 4), (47, 23, 2), (59, 29, 4), (2039, 1019, 4), (263, 131, 2), (1019, 509, 4)]
 
 
+def harvest_constants():
+    """integer and bytes literals occurring in the library source: used as extra edge values (scalars,
+    entropy, passwords, identities), so that behaviour keyed on a magic value written in the code is exercised"""
+    import ast
+    repo = os.environ.get("VERIF_REPO", "/repo")
+    ints, bts = set(), set()
+    base = os.path.join(repo, "src", "spake2")
+    for d, _, fs in os.walk(base):
+        if os.sep + "test" in d:
+            continue
+        for f in fs:
+            if not f.endswith(".py") or f == "_version.py" or f == "_verif_hooks.py":
+                continue
+            try:
+                tree = ast.parse(open(os.path.join(d, f)).read())
+            except SyntaxError:
+                continue
+            for n in ast.walk(tree):
+                if isinstance(n, ast.Constant):
+                    if isinstance(n.value, bool):
+                        continue
+                    if isinstance(n.value, int):
+                        ints.add(abs(n.value))
+                    elif isinstance(n.value, bytes) and len(n.value) <= 64:
+                        bts.add(n.value)
+                    elif isinstance(n.value, str) and 0 < len(n.value) <= 32 and "\n" not in n.value and " " not in n.value.strip():
+                        try:
+                            bts.add(n.value.encode("ascii"))
+                        except UnicodeEncodeError:
+                            pass
+    return sorted(ints), sorted(bts)
+
+
+HARVEST_INTS, HARVEST_BYTES = harvest_constants()
+
+
 class PS:
     """a parameter set known to the prelude"""
     def __init__(self, pid, gid, kind, name, q, ssize, esize, seeds=None, toy=False, curve=None, pqg=None):
@@ -160,7 +196,18 @@ class World:
 
     def edge_scalars(self, ps):
         q = ps.q
-        return [0, 1, 2, q - 1, q - 2, (q - 1) // 2, (q + 1) // 2]
+        base = [0, 1, 2, q - 1, q - 2, (q - 1) // 2, (q + 1) // 2]
+        # magic values written in the source (and their neighbours), reduced into [0, q)
+        extra = []
+        for c in HARVEST_INTS:
+            if 2 < c:
+                extra += [c % q, (c + 1) % q, (c - 1) % q]
+        seen, out = set(), []
+        for v in base + extra:
+            if v not in seen:
+                seen.add(v)
+                out.append(v)
+        return out
 
     def scalar(self, ps, edge_prob=0.3):
         r = self.rng
@@ -174,12 +221,16 @@ class World:
 
     def ids_for(self, side):
         r = self.rng
+        if HARVEST_BYTES and r.random() < 0.15:
+            return (r.choice(HARVEST_BYTES), r.choice(HARVEST_BYTES))
         if r.random() < 0.3:
             return (b"", b"")
         return (r.choice(IDS), r.choice(IDS))
 
     def password(self):
         r = self.rng
+        if HARVEST_BYTES and r.random() < 0.15:
+            return r.choice(HARVEST_BYTES)
         if r.random() < 0.6:
             return r.choice(PASSWORDS)
         return bytes(r.randrange(256) for _ in range(r.choice([1, 2, 7, 31, 32, 33, 55, 56, 63, 64, 65, 100])))
